@@ -5,9 +5,11 @@ import (
 	"fmt"
 	"math/rand"
 	"os"
+	"os/exec"
 	"path/filepath"
 	"reflect"
 	"sort"
+	"syscall"
 
 	oci "github.com/opencontainers/runtime-spec/specs-go"
 	"sigs.k8s.io/yaml"
@@ -19,14 +21,18 @@ import (
 // tree, refreshed by a real cache, against the scan/refresh/inject model.
 type cacheStream struct{}
 
-func init() { register(cacheStream{}) }
+func init() {
+	register(cacheStream{})
+	childModes["cachecase"] = childCacheCase
+}
 
 func (cacheStream) Name() string { return "cache" }
 func (cacheStream) TrivialTags() []string {
 	return []string{"dirs1", "dirs2", "dirs3", "dirs4", "items0", "req0"}
 }
 
-const cacheRoot = "/tmp/cdi-verif-cache"
+// per-process scratch root: concurrent runs of the harness must not share a tree
+var cacheRoot = scratchRoot("/tmp/cdi-verif-cache")
 
 var (
 	poolVendors = []string{"v1.com", "v2.com"}
@@ -50,7 +56,10 @@ type fileDesc struct {
 }
 
 type layoutDesc struct {
-	Phys map[string][]fileDesc `json:"phys"`
+	// permission faults, effective only for an unprivileged reader (cases with "dropuid"):
+	// phys dir -> "noread" (cannot be listed) | "nosearch" (entries cannot be examined); files of kind "noperm"
+	Perms map[string]string     `json:"perms,omitempty"`
+	Phys  map[string][]fileDesc `json:"phys"`
 	// configured directories: "p:<phys name>" | "missing" | "enotdir" | "filejson" | "fileplain"
 	Dirs []string `json:"dirs"`
 }
@@ -242,6 +251,31 @@ func (cacheStream) Generate(rng *rand.Rand, tier string, emit func(Case)) {
 		var lm map[string]any
 		_ = json.Unmarshal(lj, &lm)
 		emit(Case{"op": "refresh", "layout": lm, "auto": false})
+		if i%6 == 1 {
+			// the same layout with permission faults, scanned by an unprivileged process
+			pl := l
+			pl.Perms = map[string]string{}
+			pl.Phys = map[string][]fileDesc{}
+			for p, files := range l.Phys {
+				fs := append([]fileDesc{}, files...)
+				for k := range fs {
+					if fs[k].Kind == "valid" && rng.Intn(4) == 0 {
+						fs[k].Kind = "noperm"
+					}
+				}
+				pl.Phys[p] = fs
+				switch rng.Intn(4) {
+				case 0:
+					pl.Perms[p] = "noread"
+				case 1:
+					pl.Perms[p] = "nosearch"
+				}
+			}
+			pj, _ := json.Marshal(pl)
+			var pm map[string]any
+			_ = json.Unmarshal(pj, &pm)
+			emit(Case{"op": "refresh", "layout": pm, "auto": false, "dropuid": true, "nospawn": true})
+		}
 		if i%5 == 0 {
 			// the same through an auto-refresh cache (explicit Refresh on an up-to-date cache reports the cached errors)
 			emit(Case{"op": "refresh", "layout": lm, "auto": true, "nospawn": true})
@@ -293,6 +327,11 @@ func materialize(l layoutDesc) (dirs []string, view []any) {
 				s := templateSpec(f)
 				writeSpecFile(path, s)
 				ev["spec"] = specToProto(s)
+			case "noperm":
+				g := f
+				g.Kind = "valid"
+				writeSpecFile(path, templateSpec(g))
+				_ = os.Chmod(path, 0o000)
 			case "garbage":
 				_ = os.WriteFile(path, []byte("{ this is : not [ a spec"), 0o644)
 			case "empty":
@@ -332,7 +371,24 @@ func materialize(l layoutDesc) (dirs []string, view []any) {
 				evs = []any{}
 			}
 			dirs = append(dirs, path)
-			view = append(view, map[string]any{"path": hx(path), "state": "dir", "entries": evs})
+			switch l.Perms[d[2:]] {
+			case "noread":
+				_ = os.Chmod(path, 0o311)
+				view = append(view, map[string]any{"path": hx(path), "state": "unreadable"})
+			case "nosearch":
+				_ = os.Chmod(path, 0o444)
+				var blind []any
+				for _, e := range evs {
+					m := e.(map[string]any)
+					blind = append(blind, map[string]any{"name": m["name"], "kind": "lstaterror"})
+				}
+				if blind == nil {
+					blind = []any{}
+				}
+				view = append(view, map[string]any{"path": hx(path), "state": "dir", "entries": blind})
+			default:
+				view = append(view, map[string]any{"path": hx(path), "state": "dir", "entries": evs})
+			}
 		case d == "missing":
 			path := filepath.Join(cacheRoot, fmt.Sprintf("missing%d", i))
 			dirs = append(dirs, path)
@@ -375,15 +431,62 @@ func jsonImage(v any) string {
 	return string(b)
 }
 
+// childCacheCase: runs one cache case on an already materialized tree (as whatever user the parent chose)
+func childCacheCase(args []string) int {
+	var c Case
+	if err := json.Unmarshal([]byte(args[0]), &c); err != nil {
+		return 2
+	}
+	cacheStream{}.Execute(c)
+	b, _ := json.Marshal(c["obs"])
+	fmt.Println(string(b))
+	return 0
+}
+
 func (cacheStream) Execute(c Case) {
 	obs := map[string]any{"panic": false}
 	c["obs"] = obs
-	defer os.RemoveAll(cacheRoot)
-	var l layoutDesc
-	lj, _ := json.Marshal(c["layout"])
-	_ = json.Unmarshal(lj, &l)
-	dirs, view := materialize(l)
-	c["dirs"] = view
+	var dirs []string
+	if pre, ok := c["prebuiltdirs"].([]any); ok {
+		for _, d := range pre {
+			dirs = append(dirs, d.(string))
+		}
+	} else {
+		defer os.RemoveAll(cacheRoot)
+		var l layoutDesc
+		lj, _ := json.Marshal(c["layout"])
+		_ = json.Unmarshal(lj, &l)
+		var view []any
+		dirs, view = materialize(l)
+		c["dirs"] = view
+		if drop, _ := c["dropuid"].(bool); drop {
+			// the scan runs in a child process without privileges, so that permission bits bite
+			for _, k := range []string{"devices", "vendors", "classes", "errorkeys", "resolve", "vendorspecs"} {
+				obs[k] = []any{}
+			}
+			obs["refresherr"] = false
+			if os.Geteuid() != 0 {
+				skip("not root: cannot drop privileges for permission-fault cases")
+				c["dirs"] = []any{}
+				return
+			}
+			self, _ := os.Executable()
+			child := Case{"op": c["op"], "auto": c["auto"], "nospawn": true, "prebuiltdirs": strs2any(dirs)}
+			cj, _ := json.Marshal(child)
+			cmd := exec.Command(self, "child", "cachecase", string(cj))
+			cmd.SysProcAttr = &syscall.SysProcAttr{Credential: &syscall.Credential{Uid: 65534, Gid: 65534}}
+			out, err := cmd.Output()
+			var co map[string]any
+			if err != nil || json.Unmarshal(out, &co) != nil {
+				obs["panic"] = true
+				return
+			}
+			for k, v := range co {
+				obs[k] = v
+			}
+			return
+		}
+	}
 	defer func() {
 		if r := recover(); r != nil {
 			obs["panic"] = true
